@@ -1,6 +1,7 @@
 package main
 
 import (
+	"go/token"
 	"fmt"
 	"go/types"
 	"sort"
@@ -140,6 +141,63 @@ func runC14(c *Ctx) {
 				c.Ob("C14-R1", shortFn(fn)+": target is computed into a fresh integer", c.Position(cs.Pos()), strings.HasPrefix(t, "new(Int)"), "receiver "+t)
 			}
 		}
+		// version 1: the miner hashes over the full dataset, the verifier over the cache; they agree only if every row
+		// of the dataset was generated. The generator splits the rows into per-thread segments of `batch` rows:
+		// batch * threads must cover all rows for every row count and thread count (evaluated symbolically on a grid)
+		gd := c.Fn("consensus/aquahash/ethashdag:generateDataset")
+		var seg *ssa.Function
+		for _, a := range gd.AnonFuncs {
+			if len(callSites(a, `^ethashdag\.generateDatasetItem$`)) > 0 {
+				seg = a
+			}
+		}
+		if seg == nil {
+			c.Ob("C14-R1", "generateDataset segment worker found", c.FnPos(gd), false, "")
+		} else {
+			// batch: the value added to `first` to form the segment limit
+			var batch ssa.Value
+			for _, b := range seg.Blocks {
+				for _, ins := range b.Instrs {
+					if bo, ok := ins.(*ssa.BinOp); ok && bo.Op == token.MUL {
+						if _, isPar := bo.X.(*ssa.Convert); isPar || true {
+							// first := uint32(id) * batch
+							if cv, ok := bo.X.(*ssa.Convert); ok {
+								if _, isParam := cv.X.(*ssa.Parameter); isParam {
+									batch = bo.Y
+								}
+							}
+						}
+					}
+				}
+			}
+			okCover, dCover := batch != nil, "segment size expression not found (first := id * batch)"
+			if batch != nil {
+				var fvSize, fvThreads ssa.Value
+				for _, fv := range seg.FreeVars {
+					switch typeShort(fv.Type()) {
+					case "uint64":
+						fvSize = fv
+					case "int":
+						fvThreads = fv
+					}
+				}
+				okCover, dCover = fvSize != nil && fvThreads != nil, "captured size/threads not found"
+				for rows := int64(1); okCover && rows <= 400; rows++ {
+					for th := int64(1); th <= 64; th++ {
+						v, ok := fxEvalInt(batch, map[ssa.Value]int64{fvSize: rows * 64, fvThreads: th})
+						if !ok {
+							okCover, dCover = false, "segment size is not an arithmetic expression over size and threads"
+							break
+						}
+						if v*th < rows {
+							okCover, dCover = false, fmt.Sprintf("%d rows on %d threads: segments of %d rows cover only %d", rows, th, v, v*th)
+							break
+						}
+					}
+				}
+			}
+			c.Ob("C14-R1", "generateDataset: the per-thread segments cover every dataset row (ceiling division)", c.FnPos(seg), okCover, dCover)
+		}
 	})
 	c.Min("C14-R1", 14)
 
@@ -206,6 +264,22 @@ func runC14(c *Ctx) {
 			ok, w := allHave(fr.At(cs), mustRe(`^(byte|uint8)#0 != 1$`))
 			ok0, _ := allHave(fr.At(cs), mustRe(`^(byte|uint8)#0 != 0$`))
 			c.Ob("C14-R2", "rlpHash uses VersionHash(version) exactly for versions other than 0 and 1", c.Position(cs.Pos()), ok && ok0 && strings.HasSuffix(c.termOf(rh, cs.Common().Args[0]), "#0"), w)
+		}
+		// ... and computes it on every such path: a memo in front of it would have to be keyed by the version as well
+		// (the version is not part of the encoded bytes), so today every non-ethash return has just run VersionHash
+		var slow []*pstate
+		for _, r := range fr.AllReturns() {
+			_, n1 := hasLit(r.State, mustRe(`^(byte|uint8)#0 != 1$`))
+			_, n0 := hasLit(r.State, mustRe(`^(byte|uint8)#0 != 0$`))
+			if n0 && n1 {
+				slow = append(slow, r.State)
+			}
+		}
+		c.mustStates("C14-R2", rh, "return for a version other than 0 and 1", slow, []LitReq{
+			{Name: "rlpHash derives the result from VersionHash(version, encoding) on every path (no version-blind memo)", Re: `^called:crypto\.VersionHash\((byte|uint8)#0, .*\)$`},
+		})
+		if len(slow) == 0 {
+			c.Ob("C14-R2", "rlpHash has the argon2id path", c.FnPos(rh), false, "")
 		}
 		// Header.Hash uses the header's own version
 		hh := c.Fn("core/types:(*Header).Hash")
